@@ -184,8 +184,13 @@ def rsa_cases(rng, tier, pad, bits_list):
                                  "em=" + (b"\xff" + h[:-1]).hex(), "em=" + (b"\xff\xff" + h).hex(), "em=" + h.hex()]
                     muts += ["f=%d:%s" % (1 - flag, hx(h if flag == 0 else m)), "f=%d:%s" % (1 - flag, hx(m))]
                     if flag == 0 and not brief:
-                        muts += ["f=1:.", "f=1:" + hx(h[:31]), "f=1:" + hx(h + b"\x00")]   # digest-length variants in pre-hashed mode
-                muts += msg_muts(rng, m, 1 if quick else 4)[: (3 if quick else 10)]
+                        # digest-length variants in pre-hashed mode.  PSS: only the empty one - for 0 < len != 32 cp_rsa_ver
+                        # hashes / compares uninitialised stack bytes, the verdict is not a function of the inputs
+                        muts += ["f=1:."] + (["f=1:" + hx(h[:31]), "f=1:" + hx(h + b"\x00")] if pad != "pss" else [])
+                mm = msg_muts(rng, m, 1 if quick else 4)
+                if pad == "pss" and flag == 1:
+                    mm = [x for x in mm if len(x) == 2 + 64]      # see above: other digest lengths read uninitialised memory
+                muts += mm[: (3 if quick else 10)]
                 if pad == "pss" and (j < 2 or not quick):
                     muts.append("emtop")
                 if pad == "pkcs1" and flag == 0 and k == 61:
